@@ -92,6 +92,9 @@ type X struct {
 	mu      sync.Mutex
 	// faultClass qualifies panic signatures with the kind of damage being applied (C14).
 	faultClass string
+	// rawPresent, when set, is what the byte-based entry points are given instead of the
+	// Go serialisation of the envelope (a content-preserving re-encoding of it)
+	rawPresent []byte
 }
 
 // Violate records a violation.
